@@ -28,4 +28,8 @@ def subchecks(tier):
     prof = common.full_profile("C06", allowed=allowed, load="heavy")
     prof.weights.update({"capacity": 0.9, "system_capacity": 0.35, "batching": 0.4, "baulking": 0.25, "zero_servers": 0.15, "ps": 0.05})
     return [system_subcheck("lattice", prof, lambda spec: [Capacity(spec)], nontrivial, classes=classes, obs=True,
-                            n={"quick": 9600, "thorough": 50000}, rule="capacitated lattice; admission log vs spec capacity")]
+                            n={"quick": 9600, "thorough": 50000}, rule="capacitated lattice; admission log vs spec capacity"),
+            system_subcheck("sched_blocked", common.region_profile("C06", excluded=common.EXCL["C14"] + ("jockey_capacity",)), lambda spec: [Capacity(spec)],
+                            lambda a, spec, res: a.get("rejections", 0) >= 1 and a.get("rec_interrupted_service", 0) >= 1, classes=classes, obs=True,
+                            n={"quick": 4800, "thorough": 30000},
+                            rule="pre-emptive schedules x blocking region: rejections at scheduled nodes checked with the clauses that hold under every reading of their capacity")]
